@@ -3,7 +3,7 @@
    preserves every winner.  Layer collapsing ("@layer a { @layer b {..} }" =>
    "@layer a.b {..}") is excluded by hypothesis: it renumbers the declared
    layers and is tied by the correspondence and oracle runs only. *)
-From V Require Import Common.Base C12.Cascade C12.CascadeProofs C12.Mangle C12.MangleProofs C12.MergeProofs.
+From V Require Import Common.Base C12.Cascade C12.CascadeProofs C12.Mangle C12.MangleProofs C12.MergeProofs C12.LayerCollapse.
 
 Section Equiv.
   Variable w : world.
@@ -149,13 +149,12 @@ Section Loop.
   Qed.
 
   Lemma mr_equiv : forall rules out prev,
-    Forall no_collapse rules -> inv out prev ->
+    inv out prev ->
     equiv w (FL (mr encl rules out prev)) (FL (out ++ rules)).
   Proof.
-    induction rules as [|r rest IH]; intros out prev HNC Hinv.
+    induction rules as [|r rest IH]; intros out prev Hinv.
     - cbn [mr]. rewrite app_nil_r. apply equiv_refl.
-    - inversion HNC as [|? ? Hr Hrest]; subst.
-      assert (Happend : forall prev', inv (out ++ [r]) prev' ->
+    - assert (Happend : forall prev', inv (out ++ [r]) prev' ->
                 equiv w (FL (mr encl rest (out ++ [r]) prev')) (FL (out ++ r :: rest))).
       { intros prev' Hi. replace (out ++ r :: rest) with ((out ++ [r]) ++ rest) by (rewrite <- app_assoc; reflexivity).
         apply IH; assumption. }
@@ -183,7 +182,7 @@ Section Loop.
           apply andb_true_iff in Ec as [Ec Hsp]. apply andb_true_iff in Ec as [Hd Hss].
           apply leqb_decl in Hd. subst decls. rewrite set_nth_app.
           eapply equiv_trans.
-          { apply IH; [assumption|]. exists o1, (merge_sels ps sels), pd, cs. repeat split. exact Hcs. }
+          { apply IH. exists o1, (merge_sels ps sels), pd, cs. repeat split. exact Hcs. }
           replace ((o1 ++ RSel ps pd :: cs) ++ RSel sels pd :: rest)
             with (o1 ++ ([RSel ps pd] ++ cs ++ [RSel sels pd]) ++ rest) by (rewrite <- !app_assoc; reflexivity).
           replace ((o1 ++ RSel (merge_sels ps sels) pd :: cs) ++ rest)
@@ -201,7 +200,7 @@ Section Loop.
         * destruct (existsb (Z.eqb q) encl) eqn:Ex.
           -- apply existsb_exists in Ex as [q' [Hq' Hqq]]. apply Z.eqb_eq in Hqq. subst q'.
              eapply equiv_trans.
-             { apply IH; [assumption|].
+             { apply IH.
                destruct body as [|b0 body0]; [discriminate|].
                destruct (last (b0 :: body0) (RComment 0)) eqn:El; try exact I.
                pose proof (@app_removelast_last _ (b0 :: body0) (RComment 0) ltac:(discriminate)) as HL.
@@ -220,17 +219,25 @@ Section Loop.
         * destruct body; [|discriminate].
           apply Hskip; [reflexivity | exact Hinv].
         * apply Happend. exact I.
-      + (* RLayer: no collapsing by hypothesis *)
-        assert (HR : match names, body with
-                     | [n1], [RLayer [n2] _ body2] => RLayer [n1 ++ n2] aid body2
-                     | _, _ => RLayer names aid body
-                     end = RLayer names aid body).
-        { destruct names as [|n1 [|]]; try reflexivity;
-          destruct body as [|b body']; try reflexivity;
-          destruct b as [| | |names2 ? body2| | |]; try reflexivity;
-          destruct names2 as [|n2 [|]]; try reflexivity;
-          destruct body'; try reflexivity. cbn in Hr. contradiction. }
-        rewrite HR. apply Happend. exact I.
+      + (* RLayer: "@layer a { @layer b { X } }" => "@layer a.b { X }" *)
+        set (r' := match names, body with
+                   | [n1], [RLayer [n2] _ body2] => RLayer [n1 ++ n2] aid body2
+                   | _, _ => RLayer names aid body
+                   end).
+        assert (HR : equiv w (FL [r']) (FL [RLayer names aid body])).
+        { unfold r'.
+          destruct names as [|n1 [|]]; try apply equiv_refl;
+          destruct body as [|b body']; try apply equiv_refl;
+          destruct b as [| | |names2 ? body2| | |]; try apply equiv_refl;
+          destruct names2 as [|n2 [|]]; try apply equiv_refl;
+          destruct body'; try apply equiv_refl.
+          unfold flatten_list. cbn [flat_map flatten]. rewrite !app_nil_r, app_assoc.
+          intros pre post e p.
+          apply (stmt_prefix_redundant w conds (layer ++ n1) n2 pre (flat_map (flatten conds ((layer ++ n1) ++ n2)) body2 ++ post) e p). }
+        eapply equiv_trans; [apply IH; exact I|].
+        replace ((out ++ [r']) ++ rest) with (out ++ [r'] ++ rest) by (rewrite <- app_assoc; reflexivity).
+        replace (out ++ RLayer names aid body :: rest) with (out ++ [RLayer names aid body] ++ rest) by reflexivity.
+        rewrite !FL_app. apply equiv_ctx. exact HR.
       + apply Happend. exact I.
       + apply Happend. exact I.
       + (* RComment *)
@@ -246,14 +253,13 @@ Section Loop.
 
   (* mangleRules as a whole *)
   Theorem mangle_rules_keeps_winner_all : forall rules top,
-    Forall no_collapse rules ->
     forall pre post e p,
     winner w (pre ++ FL (mangle_rules encl rules top) ++ post) e p =
     winner w (pre ++ FL rules ++ post) e p.
   Proof.
-    intros rules top HNC. unfold mangle_rules.
+    intros rules top. unfold mangle_rules.
     assert (H : equiv w (FL (mr encl rules [] None)) (FL rules)).
-    { apply (mr_equiv rules [] None HNC I). }
+    { apply (mr_equiv rules [] None I). }
     destruct top; [exact H|].
     eapply equiv_trans; [|exact H].
     intros pre post e p. apply dedupe_keeps_winner_all. exact Hdead.
